@@ -5,6 +5,7 @@ import (
 	"io"
 	"net"
 	"sync"
+	"time"
 
 	"github.com/zishang520/engine.io-go-parser/packet"
 	"github.com/zishang520/engine.io/v2/log"
@@ -19,6 +20,8 @@ var (
 
 type webTransport struct {
 	Transport
+
+	closeTimeout time.Duration
 
 	session *types.WebTransportConn
 	mu      sync.Mutex
@@ -43,6 +46,8 @@ func NewWebTransport(ctx *types.HttpContext) WebTransport {
 
 func (w *webTransport) Construct(ctx *types.HttpContext) {
 	w.Transport.Construct(ctx)
+
+	w.closeTimeout = 30 * 1000 * time.Millisecond
 
 	w.session = ctx.WebTransport
 
@@ -227,8 +232,29 @@ func (w *webTransport) write(data types.BufferInterface, _ bool) {
 // Closes the transport.
 func (w *webTransport) DoClose(fn types.Callable) {
 	wt_log.Debug(`closing WebTransport session`)
-	defer w.session.CloseWithError(0, "")
-	if fn != nil {
-		fn()
+
+	var once sync.Once
+	closeNow := func() {
+		once.Do(func() {
+			defer w.session.CloseWithError(0, "")
+			if fn != nil {
+				fn()
+			}
+		})
 	}
+
+	if w.Writable() || w.Discarded() {
+		closeNow()
+		return
+	}
+
+	// A batch handed to Send is still being written by its goroutine: closing
+	// the session now would drop it. Close once it has drained, or after the
+	// close timeout if the peer has stopped reading.
+	wt_log.Debug("transport not writable - closing after the pending batch")
+	closeTimeoutTimer := utils.SetTimeout(closeNow, w.closeTimeout)
+	w.Once("drain", func(...any) {
+		utils.ClearTimeout(closeTimeoutTimer)
+		closeNow()
+	})
 }
